@@ -857,6 +857,33 @@ def acquisition_summaries(ctx, rid, classes, opt_classes=()):
                        "" if ok else _alts(en), fn=f.label, inst=f.qname)
         if seen == 0:
             ctx.broken("class %s has no acquisition method instantiated" % cls)
+        # any OTHER public operation that hands out a handle (added later: try_lock_if, lock_when, ...) obeys the typestate
+        # itself: on each of its return paths the handle is non-null exactly when it holds the object's own mutex
+        for f in fb.functions(rec=cls):
+            if f.name in ACQ_METHODS or f.access != "public" or f.kind in ("ctor", "dtor") or not handle_class(f.ret):
+                continue
+            s = eng.handle_summary(f)
+            if s is None:
+                ctx.unknown("%s: cannot summarise the handle returned by %s::%s at %s" % (rid, cls.split("::")[-1], f.name, f.where))
+                continue
+            for a in s:
+                disabled = cls in opt_classes and a.get("cond") and a["cond"][0] == "this.enabled" and a["cond"][1] is False
+                if disabled:
+                    ok = a["st"] == UNOWNED
+                elif a["st"] == HELD:
+                    ok = a["data"] == "&this.m_obj" and a["mutex"] == "this.m_mutex"
+                elif a["st"] == UNOWNED:
+                    ok = a["data"] is None
+                elif a["data"] is None:
+                    ok = False      # a null handle on a path where the lock may still be owned
+                else:
+                    ctx.unknown("%s: %s::%s at %s returns a handle whose lock may or may not be owned with data %s; the rule cannot "
+                                "relate the two" % (rid, cls.split("::")[-1], f.name, f.where, a["data"]))
+                    continue
+                ctx.ob(rid, ok, a.get("site") or f.where, "%s hands out a handle that is non-null exactly when it holds m_mutex" % f.name,
+                       "" if ok else "a return path yields (data=%s, lock %s on %s): %s" % (
+                           a["data"], a["st"], a["mutex"], "a null handle that keeps the object locked until it is destroyed"
+                           if a["data"] is None else "a non-null handle that does not hold the lock"), fn=f.label, inst=f.qname)
 
 
 def _alts(s):
